@@ -239,7 +239,9 @@ def clauseShown (x : Ctx) (m : NhMap) (fo : FamObs) (d : Net × List DEntry) : O
   let ranking : List (Nat × Nat) := match fo.loc.find? (fun l => l.net = d.1) with
     | some l => l.paths.map fun p => (p.src, p.attr)
     | none => []
-  if shown == ranking then none else some "api-list-order-differs-from-ranking"
+  -- without `enable_filtered` exactly the paths that passed import policy are listed, in list order
+  if optList (lookupNet d.1 fo.nofilt) != d.2.filter (fun e => !e.filtered) then some "api-list-is-not-the-unfiltered-paths"
+  else if shown == ranking then none else some "api-list-order-differs-from-ranking"
 
 def isRsClient (c : Case) (src : Nat) : Bool :=
   match c.srcs[src]? with
